@@ -39,7 +39,7 @@ Fail(clause, detail, devs) ==
 Check(ok, clause, detail, devs) == IF ok THEN TRUE ELSE Fail(clause, detail, devs)
 
 Acc0 == [c05 |-> 0, noneiff |-> 0, wantnone |-> 0, zero |-> 0, twin |-> 0, sample |-> 0,
-         causeminmax |-> 0, causediv0 |-> 0, cov |-> {}]
+         causeminmax |-> 0, causediv0 |-> 0, clipnan |-> 0, clipact |-> 0, cov |-> {}]
 
 ZOf(z) == [leaf |-> z.leaf, glob |-> z.glob]
 
@@ -61,7 +61,7 @@ TPick ==
 \* builder: silent steps, deterministic)
 TPush ==
     /\ l = 1
-    /\ (PushOperStep \/ PushMetricStep \/ PushConstantStep)
+    /\ (PushOperStep \/ PushMetricStep \/ PushConstantStep \/ PushClipperStep)
     /\ UNCHANGED <<tid, l, acc>>
 
 TFinalize ==
@@ -85,6 +85,7 @@ CovKeys(env) ==
     IF prog.k = "b" /\ miss(prog.l) /\ ok(prog.r) THEN {prog.op \o ":L"}
     ELSE IF prog.k = "b" /\ ok(prog.l) /\ miss(prog.r) THEN {prog.op \o ":R"}
     ELSE IF prog.k = "u" /\ miss(prog.a) THEN {prog.op \o ":A"}
+    ELSE IF prog.k = "cl" /\ miss(prog.a) THEN {"clip:A"}
     ELSE {}
 
 TRound ==
@@ -141,6 +142,8 @@ TRound ==
                         !.sample = @ + 1,
                         !.causeminmax = @ + (IF mo.drop THEN 1 ELSE 0),
                         !.causediv0 = @ + (IF mo.div0 THEN 1 ELSE 0),
+                        !.clipnan = @ + (IF mo.clipnan THEN 1 ELSE 0),     \* a missing value reached a clipper
+                        !.clipact = @ + (IF mo.clipact THEN 1 ELSE 0),     \* a clipper changed a number
                         !.cov = @ \cup CovKeys(env)]
     /\ l' = l + 1 /\ UNCHANGED tid
     /\ (l' - 1 > Len(Tr.rounds)) => Done
